@@ -71,6 +71,35 @@ def context_for(rng, names, mode):
     return ctx
 
 
+REMEMBERED = []
+
+
+def remember(root, ctx, result):
+    """(tree, context, what came out): asked again later in the same process, the same must come out"""
+    if len(REMEMBERED) < 400 and not isinstance(result, Exception):
+        try:
+            frozen = root.clone()   # the workloads go on rewriting some of these trees in place: keep a copy
+        except Exception:
+            return
+        REMEMBERED.append((frozen, dict(ctx) if isinstance(ctx, dict) else ctx, ME._r(result), type(result).__name__))
+
+
+def ask_again(rec):
+    for root, ctx, was, was_type in REMEMBERED:
+        try:
+            now = root.evaluate(dict(ctx) if isinstance(ctx, dict) else ctx)
+        except Exception as e:
+            now = e
+        rec.ev()
+        rec.arm("eval:asked-again-later")
+        if isinstance(now, Exception) or ME._r(now) != was or type(now).__name__ != was_type:
+            rec.violation("C05", "eval/history-dependent", "the same tree and context evaluate differently later in the same process",
+                          {"tree": S.to_json(S.shadow(root)), "text": S.text_of(root), "context": {k: ME._r(v) for k, v in (ctx or {}).items()} if isinstance(ctx, dict) else repr(ctx),
+                           "summary": f"evaluate('{S.text_of(root)}', {ctx}) gave {was[:60]} ({was_type}) the first time and "
+                                      f"{(type(now).__name__ + ': ' + str(now)[:40]) if isinstance(now, Exception) else ME._r(now)[:60] + ' (' + type(now).__name__ + ')'} later"})
+    del REMEMBERED[:]
+
+
 def evaluate(rec, root, ctx):
     from ..oracles import exact as X
 
@@ -82,6 +111,8 @@ def evaluate(rec, root, ctx):
         v = root.evaluate(ctx)
         if isinstance(v, int) and abs(v) > 2 ** 64:
             rec.arm("eval:int:bigresult")
+        if len(REMEMBERED) < 400 and (len(REMEMBERED) < 60 or id(root) % 7 == 0):
+            remember(root, ctx, v)
         return v
     except Exception as e:
         return e
@@ -150,7 +181,11 @@ def run(rec, cfg):
              "2000! = 2000 * 1999!", "2^15000 = 4^7500", "10^4300 = 10 * 10^4299", "10^4299 = 10 * 10^4298", "2^15000", "1500! - 1500 * 1499!",
              "2^15000 = 4^7500 + 1", "(x + 1)^6000 = (x + 1)^3000 * (x + 1)^3000", "x^5000 * x = x^5001", "3^9100 - 3^9100 + x", "1600! = 1600!",
              # a zero sign (and other exact-zero sub-results) feeding powers / products beyond 64 bits
-             "(sgn(x - x) + 3)^50", "sgn(y - y) * 2^70 + 2^70", "(sgn(0) + 2)^64 * 3", "(0 * x + 3)^41", "(x - x + 7)^30 * 10^20", "sgn(2 - 2) + 2^64"]
+             "(sgn(x - x) + 3)^50", "sgn(y - y) * 2^70 + 2^70", "(sgn(0) + 2)^64 * 3", "(0 * x + 3)^41", "(x - x + 7)^30 * 10^20", "sgn(2 - 2) + 2^64",
+             # the same large power with float and with int operands, in both orders
+             "7.0^900", "7^900", "7.0^900 - 7.0^900", "7^900 - 7^900", "0.5 * 7.0^900", "3.0^2000", "3^2000", "3.0^2000 + 1",
+             # a division by zero (NaN) on one side of an equation
+             "3 = x / (y - y)", "x / (y - y) = 3", "7 + z = 12 / (z - z)", "1 / 0 = 1 / 0", "x = 4 / 0", "(x + 1) / (x - x) = y"]
     for i in range(n):
         if cfg.out_of_time():
             rec.truncated = True
@@ -263,8 +298,11 @@ def run(rec, cfg):
                 else:
                     ctx[drop] = None
                 evaluate(rec, t, ctx if rng.random() < 0.8 else None)
+        if i % 500 == 499 or i == len(fixed) * 3:
+            ask_again(rec)
         if rng.random() < 0.004:
             rec.sample({"text": text[:100], "context": {k: repr(v) for k, v in context_for(rng, names, "mixed").items()}})
+    ask_again(rec)
 
 
 def replay(rec, cfg, w):
